@@ -2,13 +2,20 @@
 //
 // The Python side (vf/oracles/c06.py) owns the pixel arrays, writes every input container itself
 // and judges everything this program dumps.  This program only runs the real phosg code:
-//   load cases: Image(FILE*) on the full file (fmemopen and/or a real truncated file), raw pixels
-//               dumped; then EVERY prefix length 0..len-1 is loaded: exception, or decode compared
-//               with the full decode (differing decodes are dumped); LSan recoverable leak check
-//               after every `leakevery` cases (each LSan pass costs ~30 ms, so not after every file).
+//   load cases: the full file through every requested delivery channel - fmemopen, a real pipe (not
+//               seekable), a real file via fdopen / fopen / Image(const char*) / Image(const std::string&) -
+//               raw pixels dumped; then EVERY prefix length 0..len-1 is loaded: exception, or decode
+//               compared with the full decode (differing decodes are dumped); LSan recoverable leak
+//               check after every `leakevery` cases (each LSan pass costs ~30 ms, so not after every file).
 //   save cases: Image built from the given pixel array, save(COLOR_PPM|WINDOWS_BITMAP|PNG) bytes
-//               dumped (string and FILE* writer compared), PPM/BMP loaded back (round trip), and the
-//               saved PPM/BMP files get the same prefix enumeration.
+//               dumped; save(FILE*), save(const char* filename), save(const std::string& filename) must
+//               write the same bytes; PPM/BMP loaded back (round trip) through the same channels and
+//               given the same prefix enumeration.  F_HISTORY cases: the pixels are routed through every
+//               way an Image can come to hold them (copy/move ctor, copy/move assignment onto
+//               default-constructed and differently formatted images, raw-data ctors, load,
+//               set_channel_width/set_has_alpha) and saved again: same bytes as the direct save for the
+//               pixel-preserving routes, exact save->load round trip of the reported state for all.
+// vf::poison_errno() runs before every call into phosg (crumb_* does it, plus load_with/do_save/alt_save).
 // One process handles one (family file, shard); a sanitizer abort therefore only loses the rest of
 // that family's shard (the orchestrator restarts it after the crashed case).
 //
